@@ -292,6 +292,7 @@ func verifyFunc(w *World, fi *FuncInfo, fc *FuncContract, sweep bool) (res *Func
 		fr.returns = append(fr.returns, retPoint{st: end})
 	}
 	vc.checkAnchors(fc)
+	vc.checkSliceAliasing(fi)
 	// postconditions
 	rnames := vc.resultNames(fc, sig)
 	// a pointer parameter whose variable is rebound in the body (p = f(p)) no
